@@ -278,16 +278,23 @@ def check(program: Program, run: Run) -> None:
     NO_SPECIAL = {"time", "date", "datetime", "UUID"}     # ISO text / hex digits: neither quote nor backslash can occur
 
     def sigs_in(x, acc, d=0):
+        """`from` texts of the .replace(from, to) calls inside a value; doubling/escaping replacements only:
+        a replacement whose `to` is not `from*2` (SQL doubling) is recorded as '<from>=>other'"""
         if d > 80 or isinstance(x, (str, int, float, bool, type(None))):
             return
         if isinstance(x, (tuple, list, frozenset)):
             for i_ in x:
                 sigs_in(i_, acc, d + 1)
             return
+        fr_ = to_ = None
         if isinstance(x, _Op) and x.name == ".replace" and len(x.extra) >= 2:
-            acc.add(show(x.extra[0], -8))
+            fr_, to_ = x.extra[0], x.extra[1]
         elif isinstance(x, Sym) and x.kind == "call" and x.args and x.args[0] == ".replace" and len(x.args) >= 4:
-            acc.add(show(x.args[2], -8))
+            fr_, to_ = x.args[2], x.args[3]
+        if fr_ is not None:
+            f_s, t_s = show(fr_, -8), show(to_, -8)
+            doubled = (isinstance(fr_, Const) and isinstance(to_, Const) and isinstance(fr_.value, str) and to_.value == fr_.value * 2) or (f_s in t_s and "Mult 2" in t_s)
+            acc.add(f_s if doubled else f_s + "=>other")
         if dataclasses.is_dataclass(x):
             for fld in dataclasses.fields(x):
                 if fld.name not in ("src", "cond", "ctx", "recv"):
@@ -350,7 +357,7 @@ def check(program: Program, run: Run) -> None:
                     # `if <c> in value: value = value.replace(c, c*2)`: on the other path the character does not occur
                     q_guard = any(cd.startswith("not") and " in <v" in cd and ("secondary_quote_char" in cd) for cd in ctxt)
                     b_guard = any(cd.startswith("not") and " in <v" in cd and BS in cd for cd in ctxt)
-                    if kname not in NO_SPECIAL and not (any("secondary_quote_char" in sg or sg == '"\'"' for sg in pp) or q_guard):
+                    if kname not in NO_SPECIAL and not (any(("secondary_quote_char" in sg or sg == '"\'"') and not sg.endswith("=>other") for sg in pp) or q_guard):
                         problems.append(("quote-unescaped", "reaches the quotes on some path without the quote character being doubled"))
                     if backslash_dialect and kname not in NO_SPECIAL and not (BS in pp or b_guard):
                         problems.append(("backslash-unescaped", "reaches the quotes on some path without backslashes being doubled although this wrapper doubles them for other kinds: a backslash swallows the next character (a trailing one un-terminates the literal)"))
